@@ -5,6 +5,7 @@ package c08
 
 import (
 	"database/sql"
+	"encoding/binary"
 	"os"
 
 	"fmt"
@@ -42,6 +43,10 @@ type spec struct {
 	// DESC in an index is ignored (the index is stored ascending); a VACUUM
 	// rebuilds it as format 4, the same indexes descending
 	Legacy int `json:",omitempty"`
+	// Wrap (1..4): the file change counter (a 32-bit number in the header,
+	// one up with every commit) starts that many commits before it wraps
+	// around to 0
+	Wrap int `json:",omitempty"`
 }
 
 var writeKinds = []string{"insert", "insert", "update", "delete", "bulk", "bulk-big", "create-table", "drop-table", "create-index", "drop-index", "alter", "vacuum", "incr-vacuum", "delete-all", "update-grow", "vacuum-pagesize", "open-mid-transaction", "open-mid-transaction", "refused-read", "refused-read", "short-tail", "short-tail", "redefine-index", "redefine-index", "update-all", "update-all"}
@@ -61,6 +66,7 @@ func TestC08History(t *testing.T) {
 			s := spec{PageSize: rapid.SampledFrom([]int{512, 512, 1024, 4096}).Draw(t, "ps"), AutoVacuum: rapid.SampledFrom([]int{0, 0, 1, 2}).Draw(t, "av")}
 			s.BigCatalog = rapid.IntRange(0, 3).Draw(t, "bigcatalog") == 0
 			s.Legacy = rapid.SampledFrom([]int{0, 0, 0, 0, 3, 2}).Draw(t, "legacy")
+			s.Wrap = rapid.SampledFrom([]int{0, 0, 0, 0, 0, 1, 2, 3, 4}).Draw(t, "wrap")
 			if s.Legacy != 0 && rapid.Bool().Draw(t, "legacyscript") {
 				// the history the older format is there for: a DESC index made
 				// while DESC does not count, read through, then the VACUUM that
@@ -145,6 +151,26 @@ func run(r *vt.Run, t vt.TB, s spec) {
 		res, err = env.Create("w", path, s.PageSize, s.AutoVacuum, init)
 	}
 	sqdb.MustOK(r, t, "create", res, err, len(init)+2)
+	if s.Wrap > 0 {
+		if err := env.O.Close("w"); err != nil {
+			r.Harness(t, "close before the counter is set: %v", err)
+		}
+		f, err := os.OpenFile(path, os.O_RDWR, 0)
+		if err != nil {
+			r.Harness(t, "change counter: %v", err)
+		}
+		var c [4]byte
+		binary.BigEndian.PutUint32(c[:], uint32(0x100000000-int64(s.Wrap)))
+		f.WriteAt(c[:], 24) // file change counter
+		f.WriteAt(c[:], 92) // version-valid-for: the counter value the in-header size belongs to
+		f.Close()
+		if err := env.O.Open("w", path); err != nil {
+			r.Harness(t, "reopen after the counter is set: %v", err)
+		}
+		if rows, err := env.O.Query("w", "PRAGMA integrity_check"); err != nil || len(rows) != 1 || string(rows[0][0].B) != "ok" {
+			r.Harness(t, "integrity_check after the counter is set: %v %v", rows, err)
+		}
+	}
 	// what follows the column in an index definition, as the file's schema
 	// format lets it count now
 	effDef := func(def string) string {
@@ -965,7 +991,7 @@ func run(r *vt.Run, t vt.TB, s spec) {
 		}
 	}
 	pages := int(query("PRAGMA page_count")[0][0].I)
-	cls := []string{fmt.Sprintf("ps=%d", s.PageSize), fmt.Sprintf("autovacuum=%d", s.AutoVacuum), fmt.Sprintf("starts-in-schema-format=%d", map[int]int{0: 4, 2: 2, 3: 3}[s.Legacy])}
+	cls := []string{fmt.Sprintf("ps=%d", s.PageSize), fmt.Sprintf("autovacuum=%d", s.AutoVacuum), fmt.Sprintf("starts-in-schema-format=%d", map[int]int{0: 4, 2: 2, 3: 3}[s.Legacy]), fmt.Sprintf("change-counter-wraps=%v", s.Wrap > 0)}
 	for c := range classes {
 		cls = append(cls, c)
 	}
